@@ -2,6 +2,7 @@ SPECIFICATION Spec
 CONSTANTS
   Tier = "quick"
   WrapArith = FALSE
+  FlatWitness = FALSE
   MaxSteps = 3
 INVARIANTS Inv_C08 TypeOK
 CHECK_DEADLOCK FALSE
